@@ -583,8 +583,10 @@ impl Monitors {
                     if *m.id() == pre.id && m.state() == State::Suspect && m.incarnation() >= a {
                         stats.inc("self_suspicions_processed");
                         let at_max = m.incarnation().max(a) == u16::MAX;
+                        // an instance that knows its identity is down has nothing to refute any more
                         let defunct_now = post.undead();
-                        if !(b > m.incarnation() || (at_max && defunct_now)) {
+                        let _ = at_max;
+                        if !(b > m.incarnation() || defunct_now) {
                             v(out, "C10", "C10/suspicion-not-refuted", at, format!("suspected at {} (own {a}) but own incarnation is {b} afterwards", m.incarnation()));
                         }
                     }
@@ -600,7 +602,8 @@ impl Monitors {
                         if *m.id() == pre.id && m.state() == State::Suspect && m.incarnation() >= a {
                             stats.inc("self_suspicions_processed");
                             let at_max = m.incarnation().max(a) == u16::MAX;
-                            if !(b > m.incarnation() || (at_max && post.undead())) {
+                            let _ = at_max;
+                            if !(b > m.incarnation() || post.undead()) {
                                 v(out, "C10", "C10/suspicion-not-refuted", at, format!("suspected at {} (own {a}) by {} but own incarnation is {b} afterwards", m.incarnation(), p.header.src));
                             }
                         }
